@@ -20,6 +20,13 @@ def configs(rng, tier):
                     cs.append({"kind": "actor", "lib": lib, "attr": gen_impl.actor_attr(lib, 2, debut=debut), "item": item, "nmodels": 1,
                                "label": "slf lib=%s debut=%s ret=%s %s" % (lib, debut, ret, recv), "cfg": (lib, debut, ret, recv),
                                "expect": [("fin", debut and compliant)]})
+            # restricted visibilities: an unguarded consuming method is private whatever the user declared, a guarded one keeps its visibility
+            for vis in ("pub(crate)", "pub(super)", "pub(in crate)"):
+                for (ret, compliant) in (("u8", False), ("Option<u8>", True), ("Result<u8, std::io::Error>", False)):
+                    item = "impl A {\n pub fn new() -> Self { todo!() }\n pub fn inc(&mut self) {}\n %s fn fin(self, x: u8) -> %s { todo!() }\n}" % (vis, ret)
+                    cs.append({"kind": "actor", "lib": lib, "attr": gen_impl.actor_attr(lib, None, debut=debut), "item": item, "nmodels": 1,
+                               "label": "slfvis lib=%s debut=%s vis=%s ret=%s" % (lib, debut, vis, ret), "cfg": (lib, debut, ret, vis),
+                               "expect": [("fin", debut and compliant)]})
             # two consuming methods, one compliant one not
             item = "impl A {\n pub fn new() -> Self { todo!() }\n pub fn inc(&mut self) {}\n pub fn raw(self) -> u8 { 0 }\n pub fn fin(self, x: u8) -> Option<u8> { None }\n}"
             cs.append({"kind": "actor", "lib": lib, "attr": gen_impl.actor_attr(lib, None, debut=debut), "item": item, "nmodels": 1,
@@ -54,7 +61,7 @@ def run(rep):
     runs = []
     for lib in gen_impl.LIBS:
         for ch in ((0, 2) if rep.tier == "quick" else (0, 1, 2, 3)):
-            runs += [["consume", lib, ch, "handles=1"], ["consume", lib, ch, "handles=2"]]
+            runs += [["consume", lib, ch, "handles=1"], ["consume", lib, ch, "handles=2"], ["consume", lib, ch, "handles=1", "pending=%d" % (ch or 3)]]
         if rep.tier != "quick":
             runs.append(["consume", lib, 0, "handles=4"])
     rt_common.impl_side(rep, PID, runs, lambda a, d: probe.oracle_consume(d))
